@@ -237,7 +237,142 @@ impl Fs {
     }
 }
 
-fn run(scripts: &str, trace: &str, _opts: &Opts) -> Res<()> {
+
+// ------------------------------------------------------------------ whole-server mode (real binary, option server=<path>)
+struct Proc {
+    child: std::process::Child,
+    resp: u16,
+    http: u16,
+}
+impl Drop for Proc {
+    fn drop(&mut self) {
+        let _ = self.child.kill();
+        let _ = self.child.wait();
+    }
+}
+fn free_port() -> u16 {
+    std::net::TcpListener::bind("127.0.0.1:0").and_then(|l| l.local_addr()).map(|a| a.port()).unwrap_or(0)
+}
+fn http(port: u16, method: &str, path: &str, ctype: &str, body: &[u8]) -> Option<(u16, String)> {
+    use std::io::{Read, Write};
+    let mut c = std::net::TcpStream::connect(("127.0.0.1", port)).ok()?;
+    c.set_read_timeout(Some(std::time::Duration::from_secs(30))).ok()?;
+    let head = format!("{method} {path} HTTP/1.1\r\nHost: 127.0.0.1\r\nConnection: close\r\nContent-Type: {ctype}\r\nContent-Length: {}\r\n\r\n", body.len());
+    c.write_all(head.as_bytes()).ok()?;
+    c.write_all(body).ok()?;
+    let mut out = Vec::new();
+    let _ = c.read_to_end(&mut out);
+    let text = String::from_utf8_lossy(&out).to_string();
+    let status: u16 = text.split_whitespace().nth(1)?.parse().ok()?;
+    let body = text.split_once("\r\n\r\n").map(|x| x.1.to_string()).unwrap_or_default();
+    Some((status, body))
+}
+fn resp(port: u16, args: &[&str]) -> Option<String> {
+    use std::io::{Read, Write};
+    let mut c = std::net::TcpStream::connect(("127.0.0.1", port)).ok()?;
+    c.set_read_timeout(Some(std::time::Duration::from_secs(30))).ok()?;
+    let mut m = format!("*{}\r\n", args.len());
+    for a in args {
+        m.push_str(&format!("${}\r\n{}\r\n", a.len(), a));
+    }
+    c.write_all(m.as_bytes()).ok()?;
+    let mut buf = [0u8; 65536];
+    let n = c.read(&mut buf).ok()?;
+    Some(String::from_utf8_lossy(&buf[..n]).to_string())
+}
+fn start_server(bin: &str, data: &Path) -> Option<Proc> {
+    let (resp_port, http_port) = (free_port(), free_port());
+    let child = std::process::Command::new(bin)
+        .args(["--data-path", &data.to_string_lossy(), "--port", &resp_port.to_string(), "--http-port", &http_port.to_string()])
+        .current_dir(data)
+        .stdout(std::process::Stdio::null())
+        .stderr(std::process::Stdio::null())
+        .spawn()
+        .ok()?;
+    let p = Proc { child, resp: resp_port, http: http_port };
+    for _ in 0..600 {
+        if let Some((200, _)) = http(p.http, "GET", "/api/status", "text/plain", b"") {
+            return Some(p);
+        }
+        std::thread::sleep(std::time::Duration::from_millis(100));
+    }
+    None
+}
+/// the k of every node the running server returns for MATCH (n) RETURN n.k (a node without k shows as -1)
+fn server_graph(p: &Proc) -> Vec<i64> {
+    let mut v = Vec::new();
+    if let Some((200, body)) = http(p.http, "POST", "/api/query", "application/json", br#"{"query":"MATCH (n) RETURN n.k"}"#) {
+        if let Ok(j) = serde_json::from_str::<Value>(&body) {
+            for rec in j["records"].as_array().cloned().unwrap_or_default() {
+                fn first_int(x: &Value) -> Option<i64> {
+                    match x {
+                        Value::Number(n) => n.as_i64(),
+                        Value::Array(a) => a.iter().find_map(first_int),
+                        Value::Object(o) => o.values().find_map(first_int),
+                        _ => None,
+                    }
+                }
+                v.push(first_int(&rec).unwrap_or(-1));
+            }
+        }
+    }
+    v.sort();
+    v
+}
+
+fn run_boot(tr: &mut Trace, s: &Script, bin: &str) -> Res<()> {
+    tr.reset(&s.sid)?;
+    let tmp = tempfile::tempdir()?;
+    let data = tmp.path().to_path_buf();
+    let mut fs = Fs { snapdir: data.join("snapshots"), cache: HashMap::new(), bytes_of: HashMap::new() };
+    let mut srv = start_server(bin, &data);
+    if srv.is_none() {
+        return Err("the server binary did not come up".into());
+    }
+    for step in &s.steps {
+        match gs(step, "op") {
+            "BootImport" => {
+                let Some(p) = srv.as_ref() else { continue };
+                let k = gi(step, "k");
+                let b = "vfboundary7f3a";
+                let mut body = format!("--{b}\r\nContent-Disposition: form-data; name=\"file\"; filename=\"s.sgsnap\"\r\nContent-Type: application/octet-stream\r\n\r\n").into_bytes();
+                body.extend_from_slice(&snapshot_of(&[k]));
+                body.extend_from_slice(format!("\r\n--{b}--\r\n").as_bytes());
+                let st = http(p.http, "POST", "/api/snapshot/import", &format!("multipart/form-data; boundary={b}"), &body).map(|x| x.0).unwrap_or(0);
+                tr.emit(event_from(step, json!({"status": st, "obs": {"dir": fs.listing(), "g": server_graph(p)}})))?;
+            }
+            "BootWrite" => {
+                let Some(p) = srv.as_ref() else { continue };
+                let r = resp(p.resp, &["GRAPH.QUERY", "default", "CREATE (n:W {k: 0}) RETURN n"]).unwrap_or_default();
+                let res = if r.starts_with('-') || r.is_empty() { "err" } else { "ok" };
+                tr.emit(event_from(step, json!({"res": res, "obs": {"dir": fs.listing(), "g": server_graph(p)}})))?;
+            }
+            "BootKill" => {
+                if srv.is_none() {
+                    continue;
+                }
+                std::thread::sleep(std::time::Duration::from_millis(300)); // let the background indexer drain
+                srv = None; // SIGKILL + wait
+                tr.emit(event_from(step, json!({"obs": {"dir": fs.listing()}})))?;
+            }
+            "BootRestart" => {
+                if srv.is_some() {
+                    continue;
+                }
+                srv = start_server(bin, &data);
+                let (res, g) = match srv.as_ref() {
+                    Some(p) => ("up", server_graph(p)),
+                    None => ("down", vec![]),
+                };
+                tr.emit(event_from(step, json!({"res": res, "obs": {"dir": fs.listing(), "g": g}})))?;
+            }
+            other => return Err(format!("unknown op {other}").into()),
+        }
+    }
+    Ok(())
+}
+
+fn run(scripts: &str, trace: &str, opts: &Opts) -> Res<()> {
     let scripts = read_scripts(scripts)?;
     let mut tr = Trace::create(trace)?;
     let default_hook = std::panic::take_hook();
@@ -250,6 +385,10 @@ fn run(scripts: &str, trace: &str, _opts: &Opts) -> Res<()> {
     samyama::verif::install(Box::new(hook));
     let mut snaps: HashMap<i64, Vec<u8>> = HashMap::new();
     for s in &scripts {
+        if s.steps.first().map(|x| gs(x, "op").starts_with("Boot")) == Some(true) {
+            run_boot(&mut tr, s, &opts.get_str("server", ""))?;
+            continue;
+        }
         tr.reset(&s.sid)?;
         let tmp = tempfile::tempdir()?;
         let data = tmp.path().to_path_buf();
